@@ -110,6 +110,10 @@ func (e *Engine) lookupLocal(fr *Frame, name string) (*Ptr, types.Type, bool) {
 		}
 		return -1
 	}
+	if k := strings.LastIndex(name, "__"); k > 0 && k+2 < len(name) && name[k+2] >= '1' && name[k+2] <= '9' {
+		// name__n: the n-th local of that name in source order (nested loops both have a hidden "rangeindex")
+		return e.lookupLocalNth(fr, name[:k], name[k+2:])
+	}
 	for _, b := range fr.fn.Blocks {
 		for _, in := range b.Instrs {
 			if al, ok := in.(*ssa.Alloc); ok && al.Comment == name {
